@@ -6,6 +6,8 @@ import (
 	"math/rand"
 	"sort"
 	"strings"
+	"sync"
+	"time"
 
 	"verif/harness/internal/fake"
 	"verif/harness/internal/gen"
@@ -14,6 +16,7 @@ import (
 
 	"github.com/vektah/gqlparser/v2"
 	"github.com/vektah/gqlparser/v2/ast"
+	"github.com/vektah/gqlparser/v2/parser"
 )
 
 // kfTags are the structural features behind known C01/C02 findings; "core"
@@ -79,6 +82,8 @@ type c06Case struct {
 	FaultAt   int              `json:"fault_at"` // index into the fault-free downstream call list (-1: none)
 	FaultKind string           `json:"fault_kind,omitempty"`
 	Repeat    int              `json:"repeat"` // client requests (same gateway)
+	Copies    int              `json:"copies,omitempty"`    // the same mutation sent this many times at once (0: off)
+	CopyMode  string           `json:"copy_mode,omitempty"` // "batch": one HTTP batch [m, m, ..]; "clients": concurrent client requests
 }
 
 func (c06) ID() string            { return "C06" }
@@ -144,6 +149,9 @@ func (p c06) Gen(c *run.Ctx, idx int) (json.RawMessage, error) {
 	if r.Intn(3) == 0 {
 		cs.Cfg.Planner, cs.Cfg.TTLms = "cached", 3600000
 		cs.Repeat = 2 + r.Intn(2)
+	}
+	if idx%5 == 2 {
+		cs.Copies, cs.CopyMode = 2+r.Intn(2), []string{"batch", "clients"}[r.Intn(2)]
 	}
 	if r.Intn(2) == 0 {
 		cs.FaultAt = r.Intn(8)
@@ -215,8 +223,34 @@ func eventRootKeys(svc *fake.Service, e *fake.Event) []rootKey {
 	return out
 }
 
+// parseOnlyRoots parses (without validating) and returns the operation keyword and root field names.
+func parseOnlyRoots(query, opName string) (string, []string) {
+	doc, err := parser.ParseQuery(&ast.Source{Input: query})
+	if err != nil || len(doc.Operations) == 0 {
+		return "", nil
+	}
+	od := doc.Operations[0]
+	if opName != "" {
+		if o := doc.Operations.ForName(opName); o != nil {
+			od = o
+		}
+	}
+	var names []string
+	for _, sel := range od.SelectionSet {
+		if f, ok := sel.(*ast.Field); ok {
+			names = append(names, f.Name)
+		}
+	}
+	return string(od.Operation), names
+}
+
 // judgeMutationSegment applies the exactly-once oracle to one client request's log segment.
 func judgeMutationSegment(r *rig.Rig, roots []rootKey, evs []*fake.Event) []violation {
+	return judgeMutationSegmentN(r, roots, evs, 1)
+}
+
+// judgeMutationSegmentN: the segment belongs to `copies` client-level executions of the same mutation.
+func judgeMutationSegmentN(r *rig.Rig, roots []rootKey, evs []*fake.Event, copies int) []violation {
 	var out []violation
 	svcByName := map[string]*fake.Service{}
 	for _, s := range r.Services {
@@ -233,7 +267,16 @@ func judgeMutationSegment(r *rig.Rig, roots []rootKey, evs []*fake.Event) []viol
 	count := map[rootKey][]string{}
 	for _, e := range evs {
 		if !e.Valid {
-			continue // C02's business
+			// validity is C02's business, but a lookup or a client root field that went out in a request the
+			// service cannot even accept still tells which keyword the gateway used: parse without validating
+			if kw, names := parseOnlyRoots(e.Query, e.OpName); kw == "mutation" {
+				for _, n := range names {
+					if n == "node" {
+						out = append(out, violation{"node-lookup-sent-as-mutation", fmt.Sprintf("service %s received a `node` lookup with keyword mutation (and rejected it): %s", e.Service, strings.Join(strings.Fields(e.Query), " "))})
+					}
+				}
+			}
+			continue
 		}
 		keys := eventRootKeys(svcByName[e.Service], e)
 		isNode := false
@@ -260,8 +303,10 @@ func judgeMutationSegment(r *rig.Rig, roots []rootKey, evs []*fake.Event) []viol
 		switch {
 		case len(got) == 0:
 			out = append(out, violation{"mutation-root-not-delivered", fmt.Sprintf("root field %s (key %s, owner %s) reached no service", rk.name, rk.key, own)})
-		case len(got) > 1:
-			out = append(out, violation{"mutation-root-delivered-more-than-once", fmt.Sprintf("root field %s (key %s) was received %d times: %v", rk.name, rk.key, len(got), got)})
+		case len(got) > copies:
+			out = append(out, violation{"mutation-root-delivered-more-than-once", fmt.Sprintf("root field %s (key %s) was received %d times for %d client execution(s): %v", rk.name, rk.key, len(got), copies, got)})
+		case len(got) < copies:
+			out = append(out, violation{"mutation-root-delivered-fewer-times-than-sent", fmt.Sprintf("root field %s (key %s) was sent by %d concurrent client executions and received %d time(s): %v", rk.name, rk.key, copies, len(got), got)})
 		case got[0] != own:
 			out = append(out, violation{"mutation-root-delivered-to-wrong-service", fmt.Sprintf("root field %s (key %s) owner %s, received by %s", rk.name, rk.key, own, got[0])})
 		}
@@ -369,6 +414,40 @@ func (p c06) Exec(c *run.Ctx, idx int, raw json.RawMessage) []run.Result {
 					calls = append(calls, callRef{svcOf[id], n[svcOf[id]]})
 				}
 			}
+		}
+		if sp.Copies > 1 && faultAt == nil {
+			// the same mutation several times at once: every copy is a client-level execution of its own
+			for _, s := range r.Services {
+				s.Before = func(cl *fake.Call) { time.Sleep(2 * time.Millisecond) } // keep the requests in flight together
+			}
+			mark := r.Log.Len()
+			one := rig.Body(&sp.Op)
+			if sp.CopyMode == "batch" {
+				body := []byte("[")
+				for i := 0; i < sp.Copies; i++ {
+					if i > 0 {
+						body = append(body, ',')
+					}
+					body = append(body, one...)
+				}
+				body = append(body, ']')
+				if hr := r.Do("application/json", body); hr.Panic != nil {
+					viol = append(viol, violation{"handler-panic: " + errTemplate(fmt.Sprint(hr.Panic)), fmt.Sprint(hr.Panic) + "\n" + hr.Stack})
+				}
+			} else {
+				var wg sync.WaitGroup
+				for i := 0; i < sp.Copies; i++ {
+					wg.Add(1)
+					go func() { defer wg.Done(); r.Do("application/json", one) }()
+				}
+				wg.Wait()
+			}
+			for _, v := range judgeMutationSegmentN(r, roots, r.Log.Since(mark), sp.Copies) {
+				v.symptom = "concurrent-copies(" + sp.CopyMode + "): " + v.symptom
+				viol = append(viol, v)
+			}
+			res.Counters["concurrent_copy_runs"]++
+			tags["copies:"+sp.CopyMode] = true
 		}
 		return calls, true
 	}
